@@ -10,11 +10,11 @@ package main
 // enabled and disabled.
 
 import (
-	"sort"
 	"context"
 	"fmt"
 	"os"
 	"path/filepath"
+	"sort"
 	"strings"
 	"sync"
 	"sync/atomic"
@@ -43,14 +43,16 @@ func init() {
 
 var c07Root = fmt.Sprintf("/dev/shm/verif.c07.%d", os.Getpid())
 var c07Seq atomic.Int64
+var c07Replayed atomic.Int64 // WAL entries handed back to the buffer by recovery in the current execution
 
 // faultStore: in-memory backend whose Write is a scheduling point (storage is slow: other threads may
 // run while a flush is "in" storage) and can be switched to fail.
 type faultStore struct {
 	*hx.MemBackend
-	mu     sync.Mutex
-	fail   bool
-	failed int // storage writes that returned an error (injected outage or cancelled context)
+	mu               sync.Mutex
+	fail             bool
+	failed           int // storage writes that returned an error (injected outage or cancelled context)
+	failedPostReplay int // ... of which after a recovery had handed WAL entries back to the buffer
 }
 
 func (f *faultStore) Write(ctx context.Context, path string, data []byte) error {
@@ -70,7 +72,19 @@ func (f *faultStore) Write(ctx context.Context, path string, data []byte) error 
 	}
 	return f.MemBackend.Write(ctx, path, data)
 }
-func (f *faultStore) noteFailed() { f.mu.Lock(); f.failed++; f.mu.Unlock() }
+func (f *faultStore) noteFailed() {
+	f.mu.Lock()
+	f.failed++
+	if c07Replayed.Load() > 0 {
+		f.failedPostReplay++
+	}
+	f.mu.Unlock()
+}
+func (f *faultStore) failedAfterReplay() bool {
+	f.mu.Lock()
+	defer f.mu.Unlock()
+	return f.failedPostReplay > 0
+}
 func (f *faultStore) failedCount() int {
 	f.mu.Lock()
 	defer f.mu.Unlock()
@@ -191,8 +205,17 @@ func c07Start(store *faultStore, walDir string, startup bool) *c07Sys {
 	s.coord.Register("arrow-buffer", s.buf, shutdown.PriorityBuffer)
 	if s.walW != nil {
 		s.coord.Register("wal-purge", walPurgeOnShutdown{walWriter: s.walW, arrowBuffer: s.buf}, 35) // as in main.go
-		s.rcb = createWALRecoveryCallback(s.buf, zerolog.Nop())
-		s.ccb = createColumnarRecoveryCallback(s.buf, zerolog.Nop())
+		rcb0 := createWALRecoveryCallback(s.buf, zerolog.Nop())
+		ccb0 := createColumnarRecoveryCallback(s.buf, zerolog.Nop())
+		// count what recovery hands back to the buffer (harness bookkeeping for the violation class only)
+		s.rcb = func(ctx context.Context, records []map[string]interface{}) error {
+			c07Replayed.Add(1)
+			return rcb0(ctx, records)
+		}
+		s.ccb = func(ctx context.Context, database, measurement string, columns map[string][]interface{}) error {
+			c07Replayed.Add(1)
+			return ccb0(ctx, database, measurement, columns)
+		}
 		if startup {
 			rec := wal.NewRecovery(walDir, zerolog.Nop())
 			rec.RecoverWithOptions(context.Background(), s.rcb, &wal.RecoveryOptions{SkipActiveFile: s.walW.CurrentFile(), ColumnarCallback: s.ccb})
@@ -213,6 +236,7 @@ func c07Scenarios() []sched.Scenario {
 				os.MkdirAll(walDir, 0o700)
 			}
 			vclock.Install(time.Now())
+			c07Replayed.Store(0)
 			store := &faultStore{MemBackend: hx.NewMemBackend()}
 			var acked []hx.Row
 			var trace []string
@@ -370,7 +394,11 @@ func c07Scenarios() []sched.Scenario {
 				store.mu.Lock()
 				nf := store.failed
 				store.mu.Unlock()
-				if nf > 0 {
+				if nf > 0 && strings.Contains(cls, "lost") && store.failedAfterReplay() {
+					// rows were replayed from the WAL by a recovery and a storage write failed AFTER that replay:
+					// the replayed rows are in no WAL file any more (a different mechanism from a purge of the WAL)
+					cls += "(after-failed-storage-write-of-replayed-rows)"
+				} else if nf > 0 {
 					cls += "(after-failed-storage-write)"
 				} else {
 					cls += "(no-storage-write-failed)"
